@@ -665,6 +665,7 @@ def readE (std : Stdlib) (root0 : Val) (ro0 : Opts) (rd : Json) : R Json := do
     pure (match flattenedKeysE C 200 root [] [] root with
       | .ok ks => Json.mkObj [("ok", Json.mkObj [("changed", .bool false), ("kept", .num ks.eraseDups.length)])]
       | r => errKindJson r)
+  | "typed" => pure (Json.mkObj [("unmodelled", .bool true)])   -- typed targets of references: decided by `expect` only
   | r => throw s!"unknown read {r}"
 
 /-- C02/C08 "eval": create (and merge) a config with VarExp, then read it through the API -/
@@ -710,6 +711,11 @@ def runEval (std : Stdlib) (c : Json) : R (Json × Option Json × Option String)
               | .null => false                                    -- no expectation for this read
               | _ =>
                 if (optField w "anyerr").isSome then (optField g "err").isNone
+                else if (optField w "okany").isSome then (optField g "ok").isNone
+                else if (optField w "notcyclic").isSome then
+                  (match optField g "err" with
+                   | some e => strFieldD e "reason" "" == "cyclic"
+                   | none => (optField g "ok").isNone)
                 else g.compress != w.compress)
             match bad with
             | [] => some okOracle
@@ -743,6 +749,8 @@ def runUnpack (std : Stdlib) (c : Json) : R (Json × Option Json × Option Strin
         match newFrom co vd with
         | .ok vcfg => pure (unpack std uo ty old vcfg).isOk
         | _ => pure false
+    -- several faults: which one is reported depends on the iteration order of Go maps
+    let model := if validOk then model else model.mergeObj (Json.mkObj [("multi", .bool true)])
     let oracle : Option Json ← match optField c "impl" with
       | none => pure none
       | some impl =>
